@@ -32,6 +32,12 @@ Definition shift (tu : Z) (dt : R) (u : option Z) : R :=
   | None => dt
   | Some u => if (u =? tu)%Z then dt else dt * (IZR (tfac u) / IZR (tfac tu))
   end.
+(* an argument given in unit `unit`, expressed in the profile's unit su — converted once *)
+Definition once (fac : Z -> Z) (unit : option Z) (su : Z) (x : R) : R :=
+  match unit with
+  | None => x
+  | Some u => if (u =? su)%Z then x else x * (IZR (fac u) / IZR (fac su))
+  end.
 Definition box_spec (tu : Z) (st : R * R) (o : top (T := R)) : R * R :=
   match o with
   | TSetParams pd => (pick pd nT0 (fst st), pick pd nTw (snd st))
